@@ -39,6 +39,11 @@ type concProg struct {
 	// it only after their loop has ended (no host call between two receives);
 	// receive timestamps are then meaningless and the FIFO model is not consulted
 	Quiet bool
+	// ManySpawns: a loop whose iterator-made value is the spawn argument, far
+	// beyond the small-integer cache; every thread must return its own value
+	ManySpawns bool
+	// LoopForm of the producers: 0 C-style, 1 `for i in n`, 2 `for _, i := range n`
+	LoopForm int
 }
 
 func valueOf(id, seq int) int { return (id+1)*100000 + seq }
@@ -60,6 +65,14 @@ func genConc(g *sim.Stream, tier string) *concProg {
 			}
 		}
 	}
+	p.LoopForm = g.Intn(3)
+	if p.LoopForm > 0 && g.Chance(1, 12) {
+		// iterator-made values beyond the small-integer cache (256)
+		maxM = 330
+		if raceBuild && tier == "thorough" {
+			maxM = 2500
+		}
+	}
 	p.S = g.Range(1, 4)
 	p.R = g.Range(1, 4)
 	p.Cap = g.Intn(9)
@@ -76,7 +89,11 @@ func genConc(g *sim.Stream, tier string) *concProg {
 		p.PSpawn = append(p.PSpawn, g.Intn(9))
 	}
 	for i := 0; i < p.R; i++ {
-		p.RecvForm = append(p.RecvForm, g.Intn(4))
+		rf := g.Intn(5)
+		if rf == 4 {
+			rf = 6 // for-in left with break, nested in an iterator loop
+		}
+		p.RecvForm = append(p.RecvForm, rf)
 		p.CSpawn = append(p.CSpawn, g.Intn(3))
 	}
 	lateOdds := 5
@@ -124,6 +141,7 @@ func genConc(g *sim.Stream, tier string) *concProg {
 		}
 	}
 	p.DeepThread = g.Chance(1, 5)
+	p.ManySpawns = g.Chance(1, 40)
 	allRange := !p.MainRecv
 	for _, f := range p.RecvForm {
 		if f == 2 || f == 3 {
@@ -144,7 +162,16 @@ func genConc(g *sim.Stream, tier string) *concProg {
 	for form := 0; form < 2; form++ {
 		w("func producer%d(id, n) {", form)
 		w("  pstart(id, n)")
-		w("  for i := 0; i < n; i++ {")
+		// the loop variable is a value handed out by an iterator in two of the
+		// three forms (and is sent on, i.e. outlives the step)
+		switch p.LoopForm {
+		case 1:
+			w("  for i in n {")
+		case 2:
+			w("  for _, i := range n {")
+		default:
+			w("  for i := 0; i < n; i++ {")
+		}
 		w("    v := (id+1)*100000 + i")
 		w("    sinv(id, i)")
 		if form == 0 {
@@ -178,7 +205,9 @@ func genConc(g *sim.Stream, tier string) *concProg {
 	w("func report(rid, vals) { k := 0; rinv(rid); for _, v := range vals { if v == nil { gotnil(rid) } else { emit(rid, v); k++ }; rinv(rid) }; rend(rid); return k }")
 	w("func consumer4(rid) { <-gate; vals := []; for _, v := range c { vals.append(v) }; return report(rid, vals) }")
 	w("func consumer5(rid) { <-gate; vals := []; for v in c { vals.append(v) }; return report(rid, vals) }")
-	for form := 0; form < 6; form++ {
+	// one message per inner loop, left with break, inside an outer iterator loop
+	w("func consumer6(rid) { <-gate; k := 0; over := false; for _, round := range 1000000 { if over { break }; rinv(rid); got := false; for v in c { got = true; if v == nil { gotnil(rid) } else { emit(rid, v); k++ }; break }; if !got { over = true } }; rend(rid); return k }")
+	for form := 0; form < 7; form++ {
 		w("func gconsumer%d(rid) { consumer%d(rid); cdone <- rid }", form, form)
 	}
 	// a launcher with more than eight locals whose goroutine closes over the
@@ -311,13 +340,13 @@ func genConc(g *sim.Stream, tier string) *concProg {
 	w("a := 5")
 	w("ta := spawn(func(x, y) { return [x, y] }, a, a+1)")
 	w("a = 77")
-	w("te := spawn(func(k) { error(\"boom %%d\", k) }, a)")
+	w("te := spawn(func(k) { error(\"boom 100%%%% at %%d\", k) }, a)")
 	w("a = 78")
 	w("ra := ta.wait()")
 	if g.Bool() {
 		// the bound method handed to try, then a second wait: both report the error
 		w("r0 := try(te.wait, func(e) { return \"caught:\" + string(e) })")
-		w("if r0 != \"caught:boom 77\" { error(\"first wait gave \" + string(r0)) }")
+		w("if r0 != \"caught:boom 100%% at 77\" { error(\"first wait gave something else\") }")
 	}
 	w("re := try(func() { return te.wait() }, func(e) { return \"caught:\" + string(e) })")
 	// a spawned function that RETURNS an error value (nothing is raised): wait()
@@ -332,6 +361,14 @@ func genConc(g *sim.Stream, tier string) *concProg {
 		w("tv := spawn(func(k) { return soft(k) }, 4)")
 	}
 	w("rv := try(func() { return tv.wait() }, func(e) { return \"raised:\" + string(e) })")
+	if p.ManySpawns {
+		if g.Bool() {
+			w("ths := []; for i in 300 { ths.append(spawn(func(x) { return x }, i)) }")
+		} else {
+			w("ths := []; for _, i := range 300 { ths.append(spawn(func(x) { return x }, i)) }")
+		}
+		w("for j, t := range ths { if t.wait() != j { error(\"thread \" + string(j) + \" did not get the argument given at its spawn site\") } }")
+	}
 	if p.DeepThread {
 		// a spawned call that dies of a frame-stack overflow: wait() reports it
 		w("func rec(k) { return rec(k+1) + 1 }")
@@ -447,6 +484,10 @@ func runC10(rc *fw.RunCtx) {
 	maxSteps := 20000
 	if rc.Tier == "thorough" {
 		maxSteps = 120000
+	}
+	maxSteps += 80 * prog.Total
+	if prog.ManySpawns {
+		maxSteps += 60000
 	}
 	stratStream := rc.Tape.Stream("sched")
 	strat := sim.DrawStrategy(stratStream, 200+prog.Total*20)
@@ -662,7 +703,7 @@ func runC10(rc *fw.RunCtx) {
 			forms[f] = true
 		}
 		locus := "recv"
-		if (forms[0] || forms[1] || forms[4] || forms[5]) && prog.R >= 2 {
+		if (forms[0] || forms[1] || forms[4] || forms[5] || forms[6]) && prog.R >= 2 {
 			locus = "range,receivers>=2"
 		}
 		rc.Violate("conservation/"+locus, "lost=%v duplicated=%v (sent %d values, received %d)", lost, dup, len(sendOrder), len(recvs))
@@ -730,9 +771,9 @@ func runC10(rc *fw.RunCtx) {
 			}
 		}
 	}
-	want := `[[5, 6], "caught:boom 77", "error", "soft 4"]`
+	want := `[[5, 6], "caught:boom 100% at 77", "error", "soft 4"]`
 	if prog.DeepThread {
-		want = `[[5, 6], "caught:boom 77", "error", "soft 4", "caught-overflow"]`
+		want = `[[5, 6], "caught:boom 100% at 77", "error", "soft 4", "caught-overflow"]`
 	}
 	if out.Result == nil || safeInspect(out.Result) != want {
 		rc.Violate("wait/result-or-error", "final value %s, expected %s", out.String(), want)
